@@ -22,10 +22,10 @@ P = {
  "C04": dict(tech="static: sibling cross-check of AndContour/OrContour._compute, loop-exit dominance (warn before break) and in-sync typestate on the CFG, operator rules",
              text="Decides and/or combiner, strict > against the matching vector component, pe=count/size, that the search loop leaves only through its tolerance test or a warned break, that the stored point is the vector pe was computed from, the ray formula, closure points and the OR range filter. Not that the step-halving search converges.",
              note="numpy logical_and/or; the loop terminates."),
- "C05": dict(tech="static: parameter-liveness (PARAM), slot-table (MAP) against scipy's positional signature read from scipy sources, sibling agreement (SIB) on canonical terms",
+ "C05": dict(tech="static: parameter-liveness (PARAM), slot-table (MAP) against scipy's positional signature read from scipy sources, sibling agreement (SIB) on canonical terms; numerical lints (ln(1 +/- r) spelt log1p), early-exit path rule of the generic wrapper",
              text="Decides for every distribution family that each explicit parameter reaches its scipy slot on the not-None branch and the stored one on the None branch, that the slot tuple equals the documented parameterisation (frozen table checked against scipy's shape names), and that cdf/icdf/pdf/draw_sample use the same scipy object, methods cdf/ppf/pdf/rvs and the same slot tuple with formals equal to the parameters keys. Necessary wiring conditions; scipy's function values are not decided.",
              note="scipy's documented parameterisation; the slot table in rules/distfam.py."),
- "C06": dict(tech="static: index-agreement chain rule, inverse-permutation check of the nquad wrappers (FORM/IDX), delegation sibling rule",
+ "C06": dict(tech="static: index-agreement chain rule, inverse-permutation check of the nquad wrappers (FORM/IDX), delegation sibling rule; integration-range rule (every integrated variable between its own extreme quantiles, conditioning value read at the right nquad argument position)",
              text="Decides that GlobalHierarchicalModel.pdf multiplies, for every column, the density of distributions[i] at x[:, i] given x[:, conditional_on[i]] of the same point matrix, guarded by finiteness; that the nquad wrappers restore the argument vector with the inverse permutation of the same order that fixes ranges; limits (0, x_ij); unconditional marginals delegate to pdf/cdf/icdf respectively; the Monte-Carlo quantile reads the requested column of a sample of self. Quadrature/Monte-Carlo error is not decided.",
              note="scipy.integrate.nquad argument convention (ranges[0] is the first argument, args= appended last)."),
  "C07": dict(tech="static: RNG-threading (must-pass random_state to every RNG-consuming call, single Generator conversion dominates the loop), chain index rule, who-may-seed rule",
@@ -34,7 +34,7 @@ P = {
  "C08": dict(tech="static: key-agreement (IDX) in _get_param_values, forwarder sibling rule, keyword-contract rule across all families, partial-binding flow in DependenceFunction",
              text="Decides that every parameter name gets conditional_parameters[K](given) or fixed_parameters[K] under the same key with no branching on the shape of given, that pdf/cdf/icdf/draw_sample forward to the same-named template method with those keywords, that every family accepts its parameters keys as keywords (and honours them: C05.paramflow), and that chained dependence functions are bound under their own name and evaluated at the same argument. Numerical equality of vectorised and scalar evaluation is numpy's.",
              note="numpy broadcasting."),
- "C09": dict(tech="static: row-alignment typing (pos/rank/perm index spaces) of slicer masks, index-agreement in GHM.fit/_split_in_intervals, allocation freshness of the per-interval template copy",
+ "C09": dict(tech="static: row-alignment typing (pos/rank/perm index spaces) of slicer masks, index-agreement in GHM.fit/_split_in_intervals, allocation freshness of the per-interval template copy; None-default flow sweep (rules/noneflow.py: no None default reaches a dereference, package-wide) and caller-unchanged rule for the fit descriptions",
              text="Decides that every slicer returns masks aligned with input positions (not sorted ranks), that slicer, data column, fit options and conditioning index of a dimension carry the same index, that each interval is fitted on a deepcopy of the template with that dimension's method/weights and that dependence functions are fitted to (reference values, estimates under their own key). Equality with a stand-alone optimiser run is not decided.",
              note="numpy argsort/isin semantics as tabulated in vstat/align.py."),
  "C10": dict(tech="static: comparison-operator cover rule (OPS), shared-edge rule (EDGE: adjacent bounds must be one value), alignment typing, boundary/reference normal forms, guard dominance",
@@ -46,28 +46,28 @@ P = {
  "C12": dict(tech="static: reduction to scipy's optimiser - dispatch guard rule, call-shape rule (same scipy object, unmodified data, start values in slot order), write-back rule",
              text="Decides only the reduction: fit dispatches mle/lsq/wlsq case-insensitively and raises otherwise; _fit_mle calls fit of the same scipy object as cdf with the unmodified data and start values in slot order through the slot transforms; every non-constant slot of the result is written back through the inverse transform. Likelihood optimality and scale equivariance are scipy's optimiser's and are NOT decided.",
              note="scipy.stats.<dist>.fit is a correct MLE for the slot mapping."),
- "C13": dict(tech="static: rational normal-form comparison of the weighted regression estimator, weight-normalisation dominance rule, zero-filter index agreement, alignment typing of weights vs sorted sample",
+ "C13": dict(tech="static: rational normal-form comparison of the weighted regression estimator, weight-normalisation dominance rule, zero-filter index agreement, alignment typing of weights vs sorted sample; dtype lint (sample converted to float before powers are summed), log1p lint",
              text="Decides the plotting positions, the log10/log-log linearisation, that b_hat/a_hat equal the weighted least-squares template in normal form under normalised weights, that weights are normalised on every path into the formula after the zero filter, the weight keyword map and its ValueError, that the same (x,p,w) triple feeds the delta search and the final estimate, and that per-observation weights are permuted with the sort. fmin finding a local minimiser is not decided.",
              note="numpy elementwise semantics."),
- "C14": dict(tech="static: flow of bounds/constraints formals to the optimiser call (PARAM), typestate protocol of register/fit/_fit/callback on the CFGs (dominance, must-pass-through)",
+ "C14": dict(tech="static: flow of bounds/constraints formals to the optimiser call (PARAM), typestate protocol of register/fit/_fit/callback on the CFGs (dominance, must-pass-through); late-declaration typestate (fitted flag), array-like recording of x / y, optimiser tolerance / start-feasibility lints",
              text="Decides that declared bounds reach curve_fit/minimize in (lower, upper) order with None mapped to -inf/+inf, that declared constraints reach the optimiser, that start values/results keep key order, and the callback protocol that makes the last fit of a dependent follow the last fit of its conditioners in any call order. Optimality of curve_fit/SLSQP is not decided.",
              note="scipy curve_fit / minimize honour bounds and constraints."),
- "C15": dict(tech="static: same-structuring-element flow rule, enumerate index agreement of label coordinates, permutation contract lint of the sorter (single-source traversal used as a full ordering)",
+ "C15": dict(tech="static: same-structuring-element flow rule, enumerate index agreement of label coordinates, permutation contract lint of the sorter (single-source traversal used as a full ordering); array-like conversion rule of the sorter",
              text="Decides that erosion and labelling use the same full 3^n structure, boundary = region - erosion with default border, coordinates of dimension d come from cell centres d at the nonzero indices d for every label, the single/multiple component shapes, and that the sorter's order is a full permutation (a single-source DFS preorder is not). Geometric quality of the ordering is not decided.",
              note="scipy.ndimage binary_erosion/label and networkx dfs_preorder_nodes documented semantics."),
- "C16": dict(tech="static: Laurent-monomial normal forms with rational exponents over positive symbols (inverse o transform = id, Jacobian = d transform), wiring flow rules, RNG threading over the call graph",
+ "C16": dict(tech="static: Laurent-monomial normal forms with rational exponents over positive symbols (inverse o transform = id, Jacobian = d transform), wiring flow rules, RNG threading over the call graph; memo-follows-the-model rule, Monte-Carlo estimator rules (fraction of the sample actually returned, no fabricated value in the CouldNotSampleError handler), cancellation lint on the non-monomial inverse",
              text="Decides algebraically, on the positive quadrant, that the shipped monomial transform pairs are mutual inverses and that the predefined Jacobians equal the derivative of the transform as a function of the argument they are called with; TransformedModel pdf/draw_sample/fit wiring; given-column selection; and that every RNG-consuming call reachable from IFORM on a TransformedModel receives the model's random_state. Normalisation, support search and Monte-Carlo agreement are not decided.",
              note="positivity of hs, tz, s; numpy elementwise semantics."),
- "C17": dict(tech="static: swap-index MAP rule, flow rules for probe/result, operator rule of the in-range filter, contract lint (no assertion bounding the number of crossings)",
+ "C17": dict(tech="static: swap-index MAP rule, flow rules for probe/result, operator rule of the in-range filter, contract lint (no assertion bounding the number of crossings); on-line vertex rule, singular-system handler rule of the intersection routine",
              text="Decides swap_axis index mapping, closing of both series, the probe segment, that the result pairs the requested abscissa with np.max of the intersection ordinates, default abscissae, the four [0,1] comparisons of the segment parameters, and that nothing between intersection and max bounds the number of crossings. Geometric correctness of the 4x4 solve is not decided.",
              note="numpy linalg.solve."),
  "C18": dict(tech="static: guard table - for each malformation class the tested quantity, exception class and dominance of the guard over the computation of its entry point (CFG dominators + path conditions)",
              text="Decides for each malformation class of the statement that a guard testing that quantity raises the right exception class and dominates all computation of its entry point (33 rows, including conditional_on[i] in [0,i) and the reference checks of all three slicers). Not that every conceivable malformed input is covered.",
              note="the table is the statement's list."),
- "C19": dict(tech="static: effect summaries (alias classes + mutation sites) propagated over the call graph to a fixpoint, allocation-site freshness for the predefined getters and the per-interval template copy, who-may-write globals",
+ "C19": dict(tech="static: effect summaries (alias classes + mutation sites) propagated over the call graph to a fixpoint, allocation-site freshness for the predefined getters and the per-interval template copy, who-may-write globals; package-wide argument-mutation sweep with reaching definitions (rules/argmut.py), generator-in-default-argument lint",
              text="Decides that no public evaluation entry point mutates a parameter object or a view of one, writes no model/distribution/slicer attribute (contours write only their own), that the per-interval fit receiver is a fresh deepcopy, that everything returned by the predefined getters is allocated inside the call, and that no function assigns module-level mutable state. Bitwise repeatability beyond absence of hidden state is not decided.",
              note="numpy copy/view table in vstat/effects.py."),
- "C20": dict(tech="static: flow/MAP rules on the arguments handed to np.savetxt / matplotlib / pandas (format, delimiter, header, closing point, swap indices), truth-value-of-array lint",
+ "C20": dict(tech="static: flow/MAP rules on the arguments handed to np.savetxt / matplotlib / pandas (format, delimiter, header, closing point, swap indices), truth-value-of-array lint; replacement-template lint of re.sub, one-header-line rule",
              text="Decides what is handed to savetxt (path extension rule, coordinates, %1.6f, ';', header built per dimension from names/units), to plot/scatter (closed polyline of columns x_idx/y_idx, swap iff swap_axis, supplied design conditions used as given and never as a truth value), the other plots' data sources, and read_csv arguments with the first column as datetime index. What matplotlib/pandas do with those arguments is not decided.",
              note="matplotlib / pandas / numpy.savetxt semantics."),
 }
